@@ -188,7 +188,7 @@ def load_known(path=os.path.join(VERIF, 'known_findings.txt')):
             if line.startswith('known:'):
                 # known: property=C02 key=<exact key> :: description
                 body = line[len('known:'):].strip()
-                head, _, desc = body.partition('::')
+                head, _, desc = body.partition(' :: ')
                 parts = dict(p.split('=', 1) for p in head.split() if '=' in p and not p.startswith('key='))
                 key = head.split('key=', 1)[1].strip() if 'key=' in head else None
                 if key:
